@@ -37,6 +37,8 @@ const TOKEN_POOL: &[(&str, &str)] = &[
     ("add", "instr"), ("AND", "instr"), ("not", "instr"), ("br", "instr"), ("brnzp", "instr"), ("jsr", "instr"),
     ("ld", "instr"), ("ldr", "instr"), ("str", "instr"), ("ret", "instr"), ("rti", "instr"), ("jmp", "instr"),
     ("push", "instr"), ("call", "instr"), ("rets", "instr"), ("pop", "instr"), ("lea", "instr"),
+    // hex literals with a minus sign, around the most negative value and beyond it
+    ("x-8000", "lit"), ("0X-8000", "lit"), ("x-7FFF", "lit"), ("x-8001", "label"), ("x-FFFF", "label"), ("x-FFF1", "label"), ("x-+4", "label"), ("x-0", "lit"), ("#-32768", "lit"),
     // mnemonics with a letter too many, repeated or out of order: labels
     ("brnn", "label"), ("brzz", "label"), ("brnzpp", "label"), ("brpnp", "label"), ("BRNN", "label"), ("brzn", "label"), ("brpz", "label"), ("brpzn", "label"),
     ("brr", "label"), ("addd", "label"), ("nott", "label"), ("rett", "label"), ("jsrrr", "label"), ("ldii", "label"), ("haltt", "label"), ("retss", "label"), ("pushh", "label"),
@@ -248,6 +250,7 @@ const SEEDS: &[&str] = &[
     // the second definition of a label whose first one sits on a line that emits nothing
     "start .orig x3000\nstart lea r0 start\nhalt", "loop .break\nloop add r0 r0 #1", "a\n.break\na halt", "e .end\ne halt",
     "z .orig x3000\n.break\nz .break\nz halt", "dup\ndup halt", "dup .fill x1\ndup .fill x2\ndup .fill x3",
+    ".fill x-8000", "add r0, r0, x-8000", ".fill 0X-8000\n.fill x-8001", "ld r0 x-FFFF", ".orig x-8000", ".blkw x-8000",
     "brnn", "brzz add r0 r0 r0", "br brnzpp", "brpnp .fill x1", "BRNN", "ld r0 brzz", "brnzpp\nbrnzpp", "jsr addd",
     // text after `.end`: long lines, multi-byte characters at every column around the places where a message might cut them
     ".end\nabcdefghijklmnopqrstuv\u{e9}xyz and more", ".end\nabcdefghijklmnopqrstuvw\u{e9}xyz", ".end\n0123456789012345678901\u{20ac}", ".end\n\u{1F34B}\u{1F34B}\u{1F34B}\u{1F34B}\u{1F34B}\u{1F34B}\u{1F34B} lemons",
